@@ -677,6 +677,10 @@ def requests_at(tree: Tree, fn: FuncInfo, call: ast.Call, _depth: int = 0) -> li
     own = naming_requests(tree, fn).get(id(call)) or []
     params = {("param", p_) for p_ in fn.params}
     private = fn.outer is not None or (fn.name.startswith("_") and not (fn.name.startswith("__") and fn.name.endswith("__")))
+    if not private and _method_of_private_class(tree, fn):
+        # a constructor / method of a module-private class (``_EulerAngles.of_helicity_rotation(topology, state_id)``) is a
+        # private helper as well - provided every mention of the method's name in the library is a call that is resolved to it
+        private = True
     if not private or _depth >= 2 or not any(st is not None and any(t in params for t in subterms(st)) for _, _, st in own):
         return own
     callers = [g for g in tree.funcs.values() if g is not fn and g.qual.startswith("ampform.") and any(q == fn.qual for _, q in tree.calls_in(g, nested=False))]
@@ -688,6 +692,28 @@ def requests_at(tree: Tree, fn: FuncInfo, call: ast.Call, _depth: int = 0) -> li
         else:
             return own  # a caller in which the helper is not followed: judge the helper on its own
     return lifted or own
+
+
+def _method_of_private_class(tree: Tree, fn: FuncInfo) -> bool:
+    """True if ``fn`` is a method of a class with a private name and all uses of the method's name (``<x>.name``) in the
+    library are calls resolved to this method; AnalysisError if some use cannot be attributed (it may be a caller these
+    rules do not see)."""
+    if fn.cls is None or fn.outer is not None or (fn.name.startswith("__") and fn.name.endswith("__")):
+        return False
+    cls_name = fn.cls.qual.split("::")[-1].split(".")[-1]
+    if not cls_name.startswith("_") or (cls_name.startswith("__") and cls_name.endswith("__")):
+        return False
+    resolved = {id(c.func) for g in tree.funcs.values() if g.qual.startswith("ampform") for c, q in tree.calls_in(g, nested=False) if q == fn.qual}
+    for m in tree.modules.values():
+        if not m.name.startswith("ampform"):
+            continue
+        for node in ast.walk(m.tree):
+            if isinstance(node, ast.Attribute) and node.attr == fn.name and id(node) not in resolved:
+                raise AnalysisError(f"{fn.qual}: `{unparse(node)}` (line {node.lineno} of {m.relpath}) may be a use of this method of a private class "
+                                    "that is not resolved: cannot decide for which states it requests the angles")
+            if isinstance(node, ast.Constant) and node.value == fn.name:
+                raise AnalysisError(f"{fn.qual}: the method's name appears as a string (line {node.lineno} of {m.relpath}): it may be looked up by name")
+    return True
 
 
 def _child_of_decay(x):
